@@ -439,7 +439,7 @@ def run_fp(E):
                 out = E.mem(n)
                 w = R.call("fp_write_bin", out, n, a)
                 ctx.check(not w.caught and R.get(out, n) == bs, k + "|reencode", {"got": R.get(out, n).hex()})
-            E.case("fp_read_bin|%s|%s" % (name, cls), {"bytes": bs.hex()}, body)
+            E.case("fp_read_bin|%s" % cls, {"bytes": bs.hex(), "set": name}, body)
 
         for v, c in fp_boundary(p, n):
             if E.mine():
@@ -480,7 +480,7 @@ def run_fp(E):
                     w = R.call("fp_write_bin", o2, ln, a)
                     ctx.check(w.caught, k + "|wrong-length-accepted", {"len": ln})
                 ctx.check(R.fp_raw(a) == raw, k + "|input-modified")
-            E.case("fp_write_bin|%s|%s" % (name, cls), {"v": hx(v)}, body)
+            E.case("fp_write_bin|%s" % cls, {"v": hx(v), "set": name}, body)
 
         for v, c in fp_boundary(p, n):
             if v < p and E.mine():
@@ -689,6 +689,17 @@ class PointIO(object):
 class EpIO(PointIO):
     reps = ("affine", "projc", "jacob")
 
+    def get_packed(self, P):
+        R, K = self.R, self.R.K
+        x, y, z, coord, canon = R.ep_get(P)
+        raw = R.fp_raw(P + K["off_ep_st_y"])
+        return x, raw, R.fp_get(P + K["off_ep_st_x"])[1] and raw in (0, 1) and z == 1 and coord == K["BASIC"]
+
+    def put_packed(self, P, u, bit):
+        R, K = self.R, self.R.K
+        R.ep_put(P, u, 0, 1, K["BASIC"])
+        R.fp_put_raw(P + K["off_ep_st_y"], bit)
+
     def __init__(self, E, pre, label, pc, p):
         self.sz = E.R.K["sizeof_ep_st"]
         self.p = p
@@ -733,8 +744,11 @@ def read_case(io, cls, bs, member, note=None):
     E = io.E
     ctx, R = E.ctx, E.R
 
+    m, why = io.pc.decode_why(bs)
+    if why in ("range", "noncanonical-sign", "neutral-as-point"):
+        cls = cls + "|" + why
+
     def body(k):
-        m = io.pc.decode(bs)
         io.poison(io.P)
         pb = E.put(bs)
         n = len(bs)
@@ -751,6 +765,9 @@ def read_case(io, cls, bs, member, note=None):
             else:
                 ctx.check(True)
                 ctx.add("valid_non_member_rejected", 1)
+                lst = E.notes.setdefault("valid_non_member_rejected_classes", [])
+                if k not in lst:
+                    lst.append(k)
             return
         got, ok = io.get(io.P)
         ctx.check(got == m, k + "|decoded-value", {"got": repr(got)[:400], "exp": repr(m)[:400]})
@@ -923,6 +940,17 @@ def point_suite(io, members, others, special, cof1, field_top, coord_vals, quick
             read_case(io, c, bs, member)
 
 
+def no_point_coords(pc, draw, count):
+    out = []
+    tries = 0
+    while len(out) < count and tries < 400:
+        tries += 1
+        u = draw()
+        if pc.C.solve(u, 0) is None and pc.C.solve(u, 1) is None:
+            out.append(u)
+    return out
+
+
 def prime_coord_vals(p, n, y_of=None):
     """wire values of one Fp coordinate: below, at and above p"""
     top = (1 << (8 * n)) - 1
@@ -991,12 +1019,33 @@ def run_ep(E):
                 special.append(("u=x+p", bytes([2 | bit(y)]) + (x + p).to_bytes(n, "big")))
         special += [("neutral-trailing", bytes(1 + n)), ("neutral-trailing", bytes(1 + 2 * n)), ("neutral-trailing", bytes(2))]
         E.notes.setdefault("two_torsion_points", {})[name] = len(special and codec.cubic_roots(prm["a"], prm["b"], p))
+        # points whose ordinate sits at an edge of the compression-bit rule: tiny / huge internal representation
+        # (ordinary rule) and the neighbourhood of (p-1)/2 (pairing-friendly rule); x from the cubic x^3 + a x + b - y^2
+        edge = []
+        mi = R.mont_inv
+        for yv in [r_ * mi % p for r_ in (1, 2, 3, 0xFFFF, (1 << 64) - 1, 1 << 64, p - 1, p - 2)] + \
+                [(p - 1) // 2, (p + 1) // 2, (p - 3) // 2, (p + 3) // 2, 1, 2, p - 1, p - 2]:
+            for x0 in codec.cubic_roots(prm["a"], (prm["b"] - yv * yv) % p, p)[:1]:
+                if curve.on_curve(x0, yv):
+                    edge.append((x0, yv))
+        E.notes.setdefault("edge_ordinate_points", {})[name] = len(edge)
         pres = ["ep"] + (["g1"] if name in getattr(R, "TWIST_TYPE", {}) else [])
         for pre in pres:
             kind = ("pairf" if prm["pairf"] else "ord") + ("" if cof1 else "-cof")
             io = EpIO(E, pre, kind, pc, p)
             io.setname = name
-            point_suite(io, members, others, special, cof1, None, prime_coord_vals(p, n), quick or pre == "g1")
+            point_suite(io, members, others, special, cof1, p, prime_coord_vals(p, n), quick or pre == "g1")
+            if pre == "ep":
+                pck_suite(io, [("member", P) for P in members[:6]] + [("edge-ordinate", P) for P in edge],
+                          no_point_coords(pc, lambda: rng.randrange(p), 4))
+            for P in edge:
+                if E.mine():
+                    write_case(io, "edge-ordinate", P, "affine")
+                for pk in (0, 1):
+                    if E.mine():
+                        read_case(io, "edge-ordinate", pc.encode(P, pk), lambda m_: cof1)
+                if E.mine():
+                    read_case(io, "edge-ordinate", bytes([pc.encode(P, 1)[0] ^ 1]) + pc.encode(P, 1)[1:], lambda m_: cof1)
             R.free(io.P)
             R.free(io.Q)
     E.notes["compression_bit_rule"] = rules
@@ -1004,8 +1053,71 @@ def run_ep(E):
 
 
 # ==================================================================== pairing groups: ep2 / g2, fp2, fp12 / gt
+def pck_suite(io, pts, noroot):
+    """direct calls of X_pck / X_upk: pck keeps the first coordinate and stores the compression bit, upk inverts it,
+    upk reports a first coordinate without a point through its return value.  pts: [(class, point)], noroot: [u]"""
+    E = io.E
+    ctx, R, rng = E.ctx, E.R, E.rng
+    fpck, fupk = io.pre + "_pck", io.pre + "_upk"
+    if not (R.has(fpck) and R.has(fupk)):
+        E.notes.setdefault("functions_not_built", []).append(fpck)
+        return
+    T = io.new()
+    for cls, P in pts:
+        if not E.mine():
+            continue
+
+        def body(k, P=P):
+            for alias in (0, 1):
+                io.poison(io.P)
+                io.poison(io.Q)
+                io.put(io.P, P, "affine")
+                snap = R.get(io.P, io.sz)
+                dst = io.P if alias else io.Q
+                r = R.call(fpck, dst, io.P)
+                if not ctx.check(not r.caught, k + "|unexpected-error", {"err": r.err, "alias": alias}):
+                    return
+                u, bit, ok = io.get_packed(dst)
+                exp = io.pc.bit_of(P[0], P[1])
+                ctx.check(u == P[0] and bit == exp and ok, k + "|value", {"alias": alias, "u_ok": u == P[0], "bit": bit, "exp": exp, "ok": ok})
+                if not alias:
+                    ctx.check(R.get(io.P, io.sz) == snap, k + "|input-modified")
+                io.poison(T)
+                r = R.call(fupk, T if not alias else dst, dst)
+                got, gok = io.get(T if not alias else dst)
+                ctx.check(not r.caught and r.i == 1 and got == ("pt", P[0], P[1]) and gok, k + "|upk",
+                          {"alias": alias, "ret": r.i, "caught": r.caught, "got": repr(got)[:300]})
+        E.case("%s|%s|%s" % (fpck, io.label, cls), {"pt": repr(P)[:300], "set": io.setname}, body)
+    for u in noroot:
+        if not E.mine():
+            continue
+
+        def body(k, u=u):
+            for bit in (0, 1):
+                io.poison(io.Q)
+                io.put_packed(io.Q, u, bit)
+                io.poison(T)
+                r = R.call(fupk, T, io.Q)
+                ctx.check(r.caught or r.i == 0, k + "|returned-success", {"ret": r.i, "bit": bit})
+        E.case("%s|%s|no-point" % (fupk, io.label), {"u": repr(u)[:200], "set": io.setname}, body)
+    R.free(T)
+
+
 class Ep2IO(PointIO):
     reps = ("affine", "projc", "jacob")
+
+    def get_packed(self, P):
+        K = self.R.K
+        u, cu = self._get2(P + K["off_ep2_st_x"])
+        y0 = self.R.fp_raw(P + K["off_ep2_st_y"])
+        y1 = self.R.fp_raw(P + K["off_ep2_st_y"] + self.R.fp_sz)
+        z, cz = self._get2(P + K["off_ep2_st_z"])
+        return u, y0, cu and y1 == 0 and y0 in (0, 1) and z == (1, 0) and self.R.rd_int(P + K["off_ep2_st_coord"]) == K["BASIC"]
+
+    def put_packed(self, P, u, bit):
+        K = self.R.K
+        self.raw_put(P, u, (0, 0), (1, 0), K["BASIC"])
+        self.R.fp_put_raw(P + K["off_ep2_st_y"], bit)
 
     def __init__(self, E, pre, label, pc, F2):
         self.sz = E.R.K["sizeof_ep2_st"]
@@ -1146,6 +1258,10 @@ def run_px(E):
             io2 = Ep2IO(E, pre, kind, pc, F2)
             io2.setname = name
             point_suite(io2, members, others, special, False, None, fp2_coord_vals(p, n), quick or pre == "g2")
+            if pre == "ep2":
+                pck_suite(io2, [("member", P) for P in members[:5]] + [("on-curve", P) for P in others[:3]] +
+                          [("y1=0|" + ("y0>half" if P[1][0] > half else "y0<=half"), P) for P in y1zero],
+                          no_point_coords(pc, lambda: (rng.randrange(p), rng.randrange(p)), 3))
             # directed class: ordinate in Fp
             for P in y1zero:
                 cls = "y1=0|" + ("y0>half" if P[1][0] > half else "y0<=half")
@@ -1164,12 +1280,367 @@ def run_px(E):
 
 
 
+# ==================================================================================== binary fields and curves
+class EbIO(PointIO):
+    reps = ("affine", "projc")
+
+    def get_packed(self, P):
+        K = self.R.K
+        x, y, z = (self._get(P + K["off_eb_st_" + c]) for c in "xyz")
+        return x, y, y in (0, 1) and z == 1 and self.R.rd_int(P + K["off_eb_st_coord"]) == K["BASIC"]
+
+    def put_packed(self, P, u, bit):
+        self.raw_put(P, u, bit, 1, self.R.K["BASIC"])
+
+    def __init__(self, E, pre, label, pc, G2m):
+        K = E.R.K
+        self.sz = K["sizeof_eb_st"]
+        self.G = G2m
+        self.nd = K["RLC_FB_DIGS"] * E.R.DB
+        PointIO.__init__(self, E, pre, label, pc)
+
+    def _put(self, addr, v):
+        import ctypes
+        ctypes.memmove(addr, v.to_bytes(self.nd, "little"), self.nd)
+
+    def _get(self, addr):
+        return int.from_bytes(self.R.get(addr, self.nd), "little")
+
+    def raw_put(self, P, x, y, z, coord):
+        K = self.R.K
+        self._put(P + K["off_eb_st_x"], x)
+        self._put(P + K["off_eb_st_y"], y)
+        self._put(P + K["off_eb_st_z"], z)
+        self.R.wr_int(P + K["off_eb_st_coord"], coord)
+
+    def put(self, P, pt, rep="affine"):
+        K, G, rng = self.R.K, self.G, self.E.rng
+        if pt is None:
+            if rep == "affine":
+                self.raw_put(P, 0, 0, 0, K["BASIC"])
+            else:
+                self.raw_put(P, rng.getrandbits(G.m), rng.getrandbits(G.m), 0, K["PROJC"])
+            return
+        x, y = pt
+        if rep == "affine":
+            self.raw_put(P, x, y, 1, K["BASIC"])
+        else:                                   # Lopez-Dahab: x = X/Z, y = Y/Z^2
+            z = rng.getrandbits(G.m) | 2
+            self.raw_put(P, G.mul(x, z), G.mul(y, G.sqr(z)), z, K["PROJC"])
+
+    def get(self, P):
+        K, G = self.R.K, self.G
+        x, y, z = (self._get(P + K["off_eb_st_" + c]) for c in "xyz")
+        coord = self.R.rd_int(P + K["off_eb_st_coord"])
+        canon = (x >> G.m) == 0 and (y >> G.m) == 0 and (z >> G.m) == 0
+        if z == 0:
+            return ("inf",), canon
+        if coord == K["BASIC"]:
+            return ("pt", x, y), canon and z == 1
+        if coord == K["PROJC"]:
+            zi = G.inv(z)
+            return ("pt", G.mul(x, zi), G.mul(y, G.sqr(zi))), canon
+        return ("bad", "coord=%d" % coord), False
+
+
 def run_eb(E):
-    pass
+    import ctypes
+    ctx, R, rng = E.ctx, E.R, E.rng
+    K = R.K
+    quick = ctx.quick
+    if not R.has("eb_param_set"):
+        E.notes["functions_not_built"] = ["eb_*"]
+        return
+    n = K["RLC_FB_BYTES"]
+    m = K["RLC_FB_BITS"]
+    nd = K["RLC_FB_DIGS"] * R.DB
+    R.L.fb_poly_get.restype = ctypes.c_void_p
+    R.L.eb_curve_get_a.restype = ctypes.c_void_p
+    R.L.eb_curve_get_b.restype = ctypes.c_void_p
+    names = []
+    for nm, v in R.EH.get("relic_eb.h", {}).items():
+        r = R.call("eb_param_set", v)
+        if not r.caught:
+            names.append(nm)
+    E.notes["parameter_sets"] = names
+    top = (1 << (8 * n)) - 1
+    for name in names:
+        R.call("eb_param_set", R.E[name])
+        f = int.from_bytes(R.get(R.L.fb_poly_get(), nd), "little")
+        G = codec.GF2m(f)
+        if G.m != m:
+            ctx.fail("fb|%s|polynomial-degree" % name, {"f": hx(f)})
+            continue
+        E.notes.setdefault("field_polynomial", {})[name] = hx(f)
+        a = int.from_bytes(R.get(R.L.eb_curve_get_a(), nd), "little")
+        b = int.from_bytes(R.get(R.L.eb_curve_get_b(), nd), "little")
+        curve = codec.BinaryCodec(G, a, b)
+        pc = codec.PointCodec(curve)
+        io = EbIO(E, "eb", "kbltz" if b == 1 else "plain", pc, G)
+        io.setname = name
+        R.call("eb_curve_get_gen", io.P)
+        g, ok = io.get(io.P)
+        if g[0] != "pt" or not curve.on_curve(g[1], g[2]):
+            ctx.fail("eb|%s|generator-off-model-curve" % name, {"a": hx(a), "b": hx(b)})
+            continue
+        Gp = (g[1], g[2])
+        members = [Gp, codec.scalar_mul(curve, 2, Gp)]
+        for _ in range(4 if quick else 20):
+            members.append(codec.scalar_mul(curve, rng.randrange(3, 1 << 12), Gp))
+        others = []
+        while len(others) < (4 if quick else 20):
+            x = rng.getrandbits(m)
+            y = curve.solve(x, rng.randrange(2))
+            if y is not None:
+                others.append((x, y))
+
+        def coord_vals(kind):
+            vals = [(0, "0"), (1, "1"), (2, "small"), ((1 << m) - 1, "max"), (1 << (m - 1), "top-bit"), (1 << m, "deg=m"),
+                    ((1 << m) | 1, "deg=m"), (1 << (8 * n - 1), "deg>m"), (top, "all-ones")]
+            return [(v.to_bytes(n, "big"), c) for v, c in vals]
+        sb = curve.sqrt(b)
+        special = [("neutral-trailing", bytes(1 + n)), ("neutral-trailing", bytes(1 + 2 * n)), ("neutral-trailing", bytes(2)),
+                   ("x=0|full", b"\x04" + bytes(n) + sb.to_bytes(n, "big")), ("x=0|pack-bit0", b"\x02" + bytes(n)),
+                   ("x=0|pack-bit1", b"\x03" + bytes(n))]
+        for P in members[:2]:
+            for hi in (1 << m, 1 << (8 * n - 1)):
+                special.append(("u-unreduced", b"\x04" + (P[0] | hi).to_bytes(n, "big") + P[1].to_bytes(n, "big")))
+                special.append(("u-unreduced", bytes([2 | curve.bit(*P)]) + (P[0] | hi).to_bytes(n, "big")))
+                special.append(("v-unreduced", b"\x04" + P[0].to_bytes(n, "big") + (P[1] | hi).to_bytes(n, "big")))
+        point_suite(io, members, others, special, False, 1 << m, coord_vals, quick)
+        pck_suite(io, [("member", P) for P in members[:5]] + [("on-curve", P) for P in others[:3]] + [("x=0", (0, sb))],
+                  no_point_coords(pc, lambda: rng.getrandbits(m) | 1, 3))
+        if E.mine():
+            write_case(io, "x=0", (0, sb), "affine")
+        R.free(io.P)
+        R.free(io.Q)
+
+        # ------------------------------------------------------------------------- fb_* on this field
+        x = R.mem(K["sizeof_fb_st"], 0)
+        y = R.mem(K["sizeof_fb_st"], 0)
+
+        def fput(addr, v):
+            ctypes.memmove(addr, v.to_bytes(nd, "little"), nd)
+
+        def fget(addr):
+            return int.from_bytes(R.get(addr, nd), "little")
+
+        def fb_read(cls, bs):
+            def body(k):
+                fput(x, (1 << (8 * nd)) - 1)
+                pb = E.put(bs)
+                r = R.call("fb_read_bin", x, pb, len(bs))
+                v = int.from_bytes(bs, "big")
+                ok_ = len(bs) == n and (v >> m) == 0
+                if not ok_:
+                    ctx.check(r.caught, k + "|accepted", {"len": len(bs), "decoded": hx(fget(x))})
+                    return
+                if not ctx.check(not r.caught, k + "|rejected", {"err": r.err}):
+                    return
+                ctx.check(fget(x) == v, k + "|decoded-value", {"got": hx(fget(x))})
+                out = E.mem(n)
+                w = R.call("fb_write_bin", out, n, x)
+                ctx.check(not w.caught and R.get(out, n) == bs, k + "|reencode")
+            E.case("fb_read_bin|%s" % cls, {"bytes": bs.hex(), "set": name}, body)
+
+        for v, c in [(0, "zero"), (1, "small"), ((1 << m) - 1, "max"), (1 << (m - 1), "top-bit"), (1 << m, "deg=m"),
+                     ((1 << m) + 5, "deg=m"), (1 << (m + 1), "deg>m"), (1 << (8 * n - 1), "deg>m"), (top, "all-ones")]:
+            if E.mine():
+                fb_read(("unreduced|" if v >> m else "reduced|") + c, v.to_bytes(n, "big"))
+        for _ in range(ctx.n(20, 200)):
+            if E.mine():
+                fb_read("reduced|random", rng.getrandbits(m).to_bytes(n, "big"))
+            if E.mine():
+                fb_read("unreduced|random", (rng.getrandbits(8 * n) | (1 << rng.randrange(m, 8 * n))).to_bytes(n, "big"))
+        for ln in list(range(0, n + 3)) + [2 * n]:
+            if ln != n and E.mine():
+                fb_read("len", (rng.getrandbits(m).to_bytes(n, "big") * 2)[n - min(ln, n):][:ln] if ln else b"")
+
+        def fb_write(cls, v):
+            def body(k):
+                fput(x, v)
+                out = E.mem(n)
+                w = R.call("fb_write_bin", out, n, x)
+                if ctx.check(not w.caught, k + "|unexpected-error", {"err": w.err}):
+                    ctx.check(R.get(out, n) == v.to_bytes(n, "big"), k + "|value", {"got": R.get(out, n).hex()})
+                    rr = R.call("fb_read_bin", y, out, n)
+                    ctx.check(not rr.caught and fget(y) == v, k + "|roundtrip")
+                for ln in (0, n - 1, n + 1, 2 * n):
+                    o2 = E.mem(ln)
+                    w = R.call("fb_write_bin", o2, ln, x)
+                    ctx.check(w.caught, k + "|wrong-length-accepted", {"len": ln})
+                ctx.check(fget(x) == v, k + "|input-modified")
+            E.case("fb_write_bin|%s" % cls, {"v": hx(v), "set": name}, body)
+
+        for v, c in [(0, "zero"), (1, "small"), ((1 << m) - 1, "max"), (1 << (m - 1), "top-bit")] + \
+                [(rng.getrandbits(m), "random") for _ in range(ctx.n(10, 100))]:
+            if E.mine():
+                fb_write(c, v)
+
+        def fb_str(cls, v, radix):
+            pow2 = radix in (2, 4, 8, 16, 32, 64)
+
+            def body(k):
+                fput(x, v)
+                s_ = codec.int_to_str(v, radix).encode() if 2 <= radix <= 64 else b"101"
+                need = len(s_) + 1
+                r = R.call("fb_size_str", x, radix)
+                out = E.mem(need + 8)
+                w = R.call("fb_write_str", out, need + 8, x, radix)
+                ps = E.put(s_)
+                rr = R.call("fb_read_str", y, ps, len(s_), radix)
+                if not pow2:
+                    ctx.check(r.caught, k + "|size_str-accepted", {"ret": r.r})
+                    ctx.check(w.caught, k + "|write_str-accepted")
+                    ctx.check(rr.caught, k + "|read_str-accepted")
+                    return
+                ctx.check(not r.caught and r.r == need, k + "|size_str", {"got": r.r, "exp": need})
+                ctx.check(not w.caught and R.get(out, need) == s_ + b"\x00", k + "|value", {"got": R.get(out, need).hex(), "exp": s_.decode()})
+                ctx.check(not rr.caught and fget(y) == v, k + "|roundtrip", {"caught": rr.caught, "got": hx(fget(y))})
+                o1 = E.mem(need)
+                w1 = R.call("fb_write_str", o1, need, x, radix)
+                ctx.check(not w1.caught and R.get(o1, need) == s_ + b"\x00", k + "|exact-buffer", {"caught": w1.caught})
+                o2 = E.mem(need - 1)
+                w2 = R.call("fb_write_str", o2, need - 1, x, radix)
+                ctx.check(w2.caught, k + "|short-buffer-accepted", {"len": need - 1})
+            E.case("fb_str|%s|%s" % ("pow2-radix" if pow2 else "invalid-radix", cls), {"v": hx(v), "radix": radix, "set": name}, body)
+
+        for radix in (2, 4, 8, 16, 32, 64, 0, 1, 3, 10, 36, 63, 65, 128, 256):
+            for v, c in [(0, "zero"), (1, "small"), (radix if radix > 1 else 2, "radix-power"), ((1 << m) - 1, "max"), (1 << (m - 1), "top-bit"),
+                         (rng.getrandbits(m), "random"), (rng.getrandbits(64), "one-digit"), (1 << 64, "digit-boundary")]:
+                if E.mine():
+                    fb_str(c, v, radix)
+        for radix in (2, 16, 64):
+            if not E.mine():
+                continue
+
+            def body(k, radix=radix):
+                s_ = codec.int_to_str(1 << m, radix).encode()
+                ps = E.put(s_)
+                rr = R.call("fb_read_str", y, ps, len(s_), radix)
+                ctx.check(rr.caught, k + "|accepted", {"decoded": hx(fget(y))})
+            E.case("fb_read_str|deg=m", {"radix": radix, "set": name}, body)
+        R.free(x)
+        R.free(y)
+
+
+# ================================================================================================ Edwards curve
+class EdIO(PointIO):
+    reps = ("affine", "projc")
+
+    def get_packed(self, P):
+        K, R = self.R.K, self.R
+        y, cy = R.fp_get(P + K["off_ed_st_y"])
+        raw = R.fp_raw(P + K["off_ed_st_x"])
+        z, cz = R.fp_get(P + K["off_ed_st_z"])
+        return y, raw, cy and raw in (0, 1) and z == 1 and R.rd_int(P + K["off_ed_st_coord"]) == K["BASIC"]
+
+    def put_packed(self, P, u, bit):
+        K, R = self.R.K, self.R
+        self.raw_put(P, 0, u, 1, 0, K["BASIC"])
+        R.fp_put_raw(P + K["off_ed_st_x"], bit)
+
+    def __init__(self, E, pre, label, pc, p):
+        self.sz = E.R.K["sizeof_ed_st"]
+        self.p = p
+        PointIO.__init__(self, E, pre, label, pc)
+
+    def raw_put(self, P, x, y, z, t, coord):
+        K, R = self.R.K, self.R
+        R.fp_put(P + K["off_ed_st_x"], x)
+        R.fp_put(P + K["off_ed_st_y"], y)
+        R.fp_put(P + K["off_ed_st_z"], z)
+        R.fp_put(P + K["off_ed_st_t"], t)
+        R.wr_int(P + K["off_ed_st_coord"], coord)
+
+    def put(self, P, pt, rep="affine"):
+        K, p = self.R.K, self.p
+        y, x = pt if pt is not None else (1, 0)         # wire order is (y, x)
+        if rep == "affine":
+            self.raw_put(P, x, y, 1, x * y, K["BASIC"])
+        else:
+            z = self.E.rng.randrange(2, p)
+            self.raw_put(P, x * z, y * z, z, x * y * z, K["PROJC"])
+
+    def get(self, P):
+        K, R, p = self.R.K, self.R, self.p
+        x, cx = R.fp_get(P + K["off_ed_st_x"])
+        y, cy = R.fp_get(P + K["off_ed_st_y"])
+        z, cz = R.fp_get(P + K["off_ed_st_z"])
+        coord = R.rd_int(P + K["off_ed_st_coord"])
+        canon = cx and cy and cz
+        if z == 0:
+            return ("bad", "z=0"), False
+        if coord == K["BASIC"]:
+            ok = canon and z == 1
+        else:
+            zi = pow(z, -1, p)
+            x, y = x * zi % p, y * zi % p
+            ok = canon
+        if x == 0 and y == 1:
+            return ("inf",), ok
+        return ("pt", y, x), ok
 
 
 def run_ed(E):
-    pass
+    ctx, R, rng = E.ctx, E.R, E.rng
+    K = R.K
+    quick = ctx.quick
+    if not R.has("ed_param_set"):
+        E.notes["functions_not_built"] = ["ed_*"]
+        return
+    r = R.call("ed_param_set", R.E["CURVE_ED25519"])
+    if r.caught:
+        E.notes["parameter_sets"] = []
+        return
+    E.notes["parameter_sets"] = ["CURVE_ED25519"]
+    p = R.fp_setup()
+    n = K["RLC_FP_BYTES"]
+    if p != 2 ** 255 - 19:
+        ctx.fail("ed|CURVE_ED25519|unexpected-prime", {"p": hx(p)})
+        return
+    mont = R.mont
+    d = -121665 * pow(121666, -1, p) % p               # RFC 8032: a = -1, d = -121665/121666
+    curve = codec.EdwardsCodec(codec.PrimeCoord(p, n), p - 1, d, lambda x: (x * mont % p) & 1)
+    pc = codec.PointCodec(curve)
+    io = EdIO(E, "ed", "ed25519", pc, p)
+    io.setname = "CURVE_ED25519"
+    R.call("ed_curve_get_gen", io.P)
+    g, ok = io.get(io.P)
+    if g[0] != "pt" or not curve.on_curve(g[1], g[2]) or g[1] != 4 * pow(5, -1, p) % p:
+        ctx.fail("ed|CURVE_ED25519|generator-is-not-the-RFC-8032-base-point", {"gen": repr(g)})
+        return
+    Gp = (g[1], g[2])
+    members = [Gp, codec.scalar_mul(curve, 2, Gp)]
+    for _ in range(6 if quick else 30):
+        members.append(codec.scalar_mul(curve, rng.randrange(3, 1 << 253), Gp))
+    others = []
+    while len(others) < (6 if quick else 30):
+        y = rng.randrange(p)
+        x = curve.solve(y, rng.randrange(2))
+        if x is not None and not curve.is_neutral(y, x):
+            others.append((y, x))
+    one = (1).to_bytes(n, "big")
+    m1 = (p - 1).to_bytes(n, "big")
+    special = [("neutral-trailing", bytes(1 + n)), ("neutral-trailing", bytes(1 + 2 * n)), ("neutral-trailing", bytes(2)),
+               ("neutral-as-point|pack-bit0", b"\x02" + one), ("neutral-as-point|pack-bit1", b"\x03" + one),
+               ("neutral-as-point|full", b"\x04" + one + bytes(n)),
+               ("order2|pack-bit0", b"\x02" + m1), ("order2|pack-bit1", b"\x03" + m1), ("order2|full", b"\x04" + m1 + bytes(n))]
+    i4 = sqrt_mod(p - 1, p)                              # points of order four: (x, y) = (+-sqrt(-1), 0)
+    for xv in (i4, p - i4):
+        special += [("order4|full", b"\x04" + bytes(n) + xv.to_bytes(n, "big")),
+                    ("order4|pack", bytes([2 | curve.bit(xv)]) + bytes(n))]
+    for P in members[:3]:
+        y, x = P
+        if y + p < (1 << (8 * n)):
+            special.append(("u=y+p", b"\x04" + (y + p).to_bytes(n, "big") + x.to_bytes(n, "big")))
+            special.append(("u=y+p", bytes([2 | curve.bit(x)]) + (y + p).to_bytes(n, "big")))
+        if x + p < (1 << (8 * n)):
+            special.append(("v=x+p", b"\x04" + y.to_bytes(n, "big") + (x + p).to_bytes(n, "big")))
+    point_suite(io, members, others, special, False, p, prime_coord_vals(p, n), quick)
+    pck_suite(io, [("member", P) for P in members[:6]] + [("on-curve", P) for P in others[:3]] +
+              [("order2", (p - 1, 0)), ("order4", (0, i4))], no_point_coords(pc, lambda: rng.randrange(p), 4))
+    E.notes["compression_bit_rule"] = {"CURVE_ED25519": "lsb(x*R mod p)"}
 
 
 def run_fp2_packed(E, name, F2):
@@ -1186,25 +1657,31 @@ def run_fp2_packed(E, name, F2):
         return (a1 * mont % p) & 1
 
     def decode(bs):
+        """-> ([a0, a1] or None, reason)"""
         if len(bs) != n + 1:
-            return None
+            return None, "len"
         a0 = int.from_bytes(bs[:n], "big")
-        if a0 >= p or bs[n] not in (0, 1):
-            return None
+        if a0 >= p:
+            return None, "a0>=p"
+        if bs[n] not in (0, 1):
+            return None, "sign-byte>1"
         a1 = sqrt_mod((a0 * a0 - 1) * pow(beta, -1, p) % p, p)      # a0^2 - beta a1^2 = 1
         if a1 is None:
-            return None
+            return None, "no-root"
         if bit(a1) != bs[n]:
             a1 = -a1 % p
-        return [a0, a1] if bit(a1) == bs[n] else None
+        if bit(a1) != bs[n]:
+            return None, "a1=0-bit1"
+        return [a0, a1], "ok"
 
     def rd(cls, bs):
+        m, why = decode(bs)
+
         def body(k):
             R.fp_put_raw(x, top)
             R.fp_put_raw(x + R.fp_sz, top)
             pb = E.put(bs)
             r = R.call("fp2_read_bin", x, pb, len(bs))
-            m = decode(bs)
             if m is None:
                 ctx.check(r.caught, k + "|accepted", {"decoded": repr(R.fpx_get(x, 2))})
                 return
@@ -1216,7 +1693,7 @@ def run_fp2_packed(E, name, F2):
             out = E.mem(n + 1)
             w = R.call("fp2_write_bin", out, n + 1, x, 1)
             ctx.check(not w.caught and R.get(out, n + 1) == bs, k + "|reencode", {"caught": w.caught, "got": R.get(out, n + 1).hex()})
-        E.case("fp2_read_bin|%s|%s" % (lab, cls), {"bytes": bs.hex(), "set": name}, body)
+        E.case("fp2_read_bin|%s|%s|%s" % (lab, cls, why), {"bytes": bs.hex(), "set": name}, body)
 
     def wr(cls, el, unit):
         def body(k):
@@ -1254,20 +1731,63 @@ def run_fp2_packed(E, name, F2):
             wr(cls, u, True)
         enc = u[0].to_bytes(n, "big") + bytes([bit(u[1])])
         if E.mine():
-            rd("valid|" + cls, enc)
+            rd("valid", enc)
         if E.mine():
-            rd("sign-flipped|" + cls, enc[:n] + bytes([enc[n] ^ 1]))
+            rd("sign-flipped", enc[:n] + bytes([enc[n] ^ 1]))
         if i < 2 or cls != "norm1":
             for b in range(2, 256):
                 if E.mine():
-                    rd("sign-byte>1", enc[:n] + bytes([b]))
+                    rd("sign-byte", enc[:n] + bytes([b]))
     for _ in range(4 if ctx.quick else 20):
         if E.mine():
             wr("not-norm1", (rng.randrange(p), rng.randrange(p)), False)
+
+    def pk(cls, el, unit):
+        def body(k):
+            R.fpx_put(x, list(el))
+            r = R.call("fp2_pck", y, x)
+            if not ctx.check(not r.caught, k + "|unexpected-error", {"err": r.err}):
+                return
+            if unit:
+                a0 = R.fp_get(y)
+                raw = R.fp_raw(y + R.fp_sz)
+                ctx.check(a0 == (el[0], True) and raw == bit(el[1]), k + "|value", {"a0": repr(a0), "bit": raw, "exp": bit(el[1])})
+            else:
+                ctx.check(R.fpx_get(y, 2) == (list(el), True), k + "|value", {"got": repr(R.fpx_get(y, 2))})
+            R.fp_put_raw(x, top)
+            R.fp_put_raw(x + R.fp_sz, top)
+            r = R.call("fp2_upk", x, y)
+            ctx.check(not r.caught and r.i == 1 and R.fpx_get(x, 2) == (list(el), True), k + "|upk",
+                      {"ret": r.i, "caught": r.caught, "got": repr(R.fpx_get(x, 2))})
+        E.case("fp2_pck|%s|%s" % (lab, cls), {"el": [hx(c) for c in el], "set": name}, body)
+
+    if R.has("fp2_pck") and R.has("fp2_upk"):
+        for i, u in enumerate(units):
+            if E.mine():
+                pk("norm1" if i < len(units) - 4 else ("a1=0" if u[1] == 0 else "a0=0"), u, True)
+        for _ in range(3):
+            if E.mine():
+                pk("not-norm1", (rng.randrange(p), rng.randrange(2, p)), False)
+        cnt = 0
+        while cnt < 4:
+            a0 = rng.randrange(p)
+            if sqrt_mod((a0 * a0 - 1) * pow(beta, -1, p) % p, p) is not None:
+                continue
+            cnt += 1
+            if not E.mine():
+                continue
+
+            def body(k, a0=a0):
+                for b in (0, 1):
+                    R.fp_put(y, a0)
+                    R.fp_put_raw(y + R.fp_sz, b)
+                    r = R.call("fp2_upk", x, y)
+                    ctx.check(r.caught or r.i == 0, k + "|returned-success", {"ret": r.i})
+            E.case("fp2_upk|%s|no-root" % lab, {"a0": hx(a0), "set": name}, body)
     for v, c in fp_boundary(p, n):
         for b in (0, 1):
             if E.mine():
-                rd("a0=" + c, v.to_bytes(n, "big") + bytes([b]))
+                rd("a0-boundary", v.to_bytes(n, "big") + bytes([b]))
     found = 0
     while found < (8 if ctx.quick else 60):
         a0 = rng.randrange(p)
@@ -1277,7 +1797,7 @@ def run_fp2_packed(E, name, F2):
         found += 1
         for b in (0, 1):
             if E.mine():
-                rd("a0-random|" + ("root" if has else "no-root"), a0.to_bytes(n, "big") + bytes([b]))
+                rd("a0-random", a0.to_bytes(n, "big") + bytes([b]))
     R.free(x)
     R.free(y)
 
@@ -1335,6 +1855,44 @@ def run_fp12_gt(E, name, F2):
             ctx.fail("fp12|%s|workload-element-not-cyclotomic" % name, {"el": [hx(t) for t in fl[:4]]})
     one = [1] + [0] * 11
     noncyc = [[rng.randrange(p) for _ in range(12)] for _ in range(2 if ctx.quick else 8)]
+
+    z = R.fpx_new(12)
+
+    def pk12(cls, flat, cyclo, fpck, fupk):
+        def body(k):
+            R.fpx_put(x, flat)
+            snap = R.get(x, 12 * R.fp_sz)
+            for i in range(12):
+                R.fp_put_raw(y + i * R.fp_sz, top)
+                R.fp_put_raw(z + i * R.fp_sz, top)
+            r = R.call(fpck, y, x)
+            if not ctx.check(not r.caught, k + "|unexpected-error", {"err": r.err}):
+                return
+            got, canon = R.fpx_get(y, 12)
+            if fpck == "fp12_pck":
+                exp = list(flat)
+                if cyclo:
+                    exp[0] = exp[1] = exp[8] = exp[9] = 0           # a[0][0] and a[1][1] are dropped
+                ctx.check(got == exp and canon, k + "|value", {"got": [hx(t) for t in got[:4]]})
+            elif cyclo:
+                ctx.check(got[6:] == [0] * 6 and canon, k + "|value", {"got": [hx(t) for t in got[6:]]})   # torus form: a[1] = 0
+            ctx.check(R.get(x, 12 * R.fp_sz) == snap, k + "|input-modified")
+            r = R.call(fupk, z, y)
+            ctx.check(not r.caught and r.i == 1 and R.fpx_get(z, 12) == (flat, True), k + "|upk",
+                      {"ret": r.i, "caught": r.caught, "got": [hx(t) for t in R.fpx_get(z, 12)[0][:4]]})
+        E.case("%s|%s" % (fpck, cls), {"el": [hx(t) for t in flat[:4]], "set": name}, body)
+
+    for fpck, fupk in (("fp12_pck", "fp12_upk"), ("fp12_pck_max", "fp12_upk_max")):
+        if not (R.has(fpck) and R.has(fupk)):
+            E.notes.setdefault("functions_not_built", []).append(fpck)
+            continue
+        for fl in good:
+            if E.mine():
+                pk12("cyclotomic", fl, True, fpck, fupk)
+        if E.mine():
+            pk12("unity", one, True, fpck, fupk)
+        if E.mine():
+            pk12("non-cyclotomic", noncyc[0], False, fpck, fupk)
 
     for pre in ("fp12", "gt"):
         def wr(cls, flat, cyclo, pre=pre):
@@ -1425,3 +1983,4 @@ def run_fp12_gt(E, name, F2):
                 rd("len", (enc_full(good[0] if good else one) * 3)[:ln], "reject")
     R.free(x)
     R.free(y)
+    R.free(z)
